@@ -28,7 +28,7 @@ use crate::{
     connection_provider::{ConnectionProvider, TlsConfig},
     name_server::NameServer,
     name_server_pool::{NameServerPool, NameServerTransportState, PoolContext},
-    net::DnsHandle,
+    net::{DnsError, DnsHandle, NetError},
     proto::{
         access_control::{AccessControlSet, AccessControlSetBuilder},
         op::{DnsRequestOptions, Message, Query},
@@ -434,21 +434,6 @@ impl<P: ConnectionProvider> RecursorDnsHandle<P> {
         #[cfg(feature = "metrics")]
         self.metrics.outgoing_query_counter.increment(1);
 
-        // TODO: we are only expecting one response
-        // TODO: should we change DnsHandle to always be a single response? And build a totally custom handler for other situations?
-        let mut response = match response.next().await {
-            Some(Ok(r)) => r,
-            Some(Err(error)) => {
-                warn!(?query, %error, "lookup error");
-                self.response_cache.insert(query, Err(error.clone()), now);
-                return Err(RecursorError::from(error));
-            }
-            None => {
-                warn!("no response to lookup for {query}");
-                return Err("no response to lookup".into());
-            }
-        };
-
         let answer_filter = |record: &Record| {
             if !is_subzone(&zone, &record.name) {
                 debug!(
@@ -459,6 +444,44 @@ impl<P: ConnectionProvider> RecursorDnsHandle<P> {
             }
 
             true
+        };
+
+        // TODO: we are only expecting one response
+        // TODO: should we change DnsHandle to always be a single response? And build a totally custom handler for other situations?
+        let mut response = match response.next().await {
+            Some(Ok(r)) => r,
+            Some(Err(mut error)) => {
+                warn!(?query, %error, "lookup error");
+
+                // Negative responses arrive in error form. The records they carry are subject to
+                // the same bailiwick filter as the sections of a positive response.
+                if let NetError::Dns(DnsError::NoRecordsFound(no_records)) = &mut error {
+                    if let Some(recs) = no_records.authorities.take() {
+                        let recs = recs
+                            .iter()
+                            .filter(|record| answer_filter(record))
+                            .cloned()
+                            .collect::<Vec<_>>();
+                        if !recs.is_empty() {
+                            no_records.authorities = Some(Arc::from(recs));
+                        }
+                    }
+
+                    let soa = no_records.soa.as_ref();
+                    if soa.is_some_and(|soa| !is_subzone(&zone, &soa.name)) {
+                        debug!(?soa, %zone, "dropping out of bailiwick record");
+                        no_records.soa = None;
+                        no_records.negative_ttl = None;
+                    }
+                }
+
+                self.response_cache.insert(query, Err(error.clone()), now);
+                return Err(RecursorError::from(error));
+            }
+            None => {
+                warn!("no response to lookup for {query}");
+                return Err("no response to lookup".into());
+            }
         };
 
         let answers_len = response.answers.len();
@@ -520,7 +543,13 @@ impl<P: ConnectionProvider> RecursorDnsHandle<P> {
             depth += 1;
             RecursorError::recursion_exceeded(self.ns_recursion_limit, depth, &zone)?;
 
-            let parent_zone = zone.base_name();
+            // The pool found so far serves an ancestor of the parent name if the names in between
+            // are not zone cuts. Its zone is the bailiwick for the records of the response, e.g.
+            // the SOA record of a negative response.
+            let parent_zone = nameserver_pool
+                .zone()
+                .cloned()
+                .unwrap_or_else(|| zone.base_name());
 
             let query = Query::new(zone.clone(), RecordType::NS);
 
